@@ -20,7 +20,7 @@ RULE = ('hostile scripts: in each victim state (contact header not yet sent by t
         '(role, script).')
 COMPONENTS = tc.COMPONENTS
 PROBES = ('hostile.pre-session', 'hostile.unknown-id', 'hostile.no-transfer', 'hostile.unknown-type', 'hostile.bad-contact',
-          'hostile.other', 'probe.victim_transfer_completed', 'probe.followup_processed', 'probe.queued_before_session', 'probe.final_ack_while_in_progress', 'probe.final_ack_while_queued', 'probe.refuse_own_queued')
+          'hostile.other', 'probe.victim_transfer_completed', 'probe.followup_processed', 'probe.queued_before_session', 'probe.final_ack_while_in_progress', 'probe.final_ack_while_queued', 'probe.refuse_own_queued', 'probe.refuse_own_unstarted')
 ASSUMPTIONS = ['the reject/terminate/close clause is demanded only for the message classes the statement lists; for other hostile '
                'input only: no escaped exception, no mixed data, own transfers unharmed']
 CHUNK = 20
@@ -180,7 +180,12 @@ def _do_hostile(run, har, msg, state):
     if msg['what'] == 'refuse-own-queued':
         tid = int(har.queued[-1][1]) if har.queued else 1
         run.stats['probe.refuse_own_queued'] = 1
-        state.setdefault('refused', set()).add(str(tid))
+        started = any(evt[3] == 'dbus-signal' and evt[5] == 'send_bundle_started' and str(evt[7][0]) == str(tid) for evt in har.wld.hist)
+        if started or msg.get('with_term'):
+            state.setdefault('refused', set()).add(str(tid))
+        else:
+            # the transfer has not been started: to the peer its id is unknown, the refusal is out of place and the queued transfer is to be unaffected
+            run.stats['probe.refuse_own_unstarted'] = 1
         data = rfc9174.encode(dict(kind='XFER_REFUSE', reason=2, transfer_id=tid))
         if msg.get('with_term'):
             # ... and the peer's SESS_TERM in the same read, before the victim's idle callbacks have run
